@@ -123,7 +123,7 @@ pub fn opener_main(args: &[String]) -> i32 {
     crate::driver::install_panic_hook();
     LOCK_RETRY.store(false, Ordering::Relaxed);
     match cfg.hasher {
-        HasherKind::Blake3 => opener_run::<B3>(&dir, &cfg, seed, next),
+        HasherKind::Blake3 | HasherKind::TailLabel => opener_run::<B3>(&dir, &cfg, seed, next),
         HasherKind::Sha2 => opener_run::<S2>(&dir, &cfg, seed, next),
     }
 }
@@ -864,7 +864,7 @@ impl Check for C20 {
     }
     fn run(case: &C20Case, ctx: &Ctx) -> Result<CaseInfo, Violation> {
         match case.cfg.hasher {
-            HasherKind::Blake3 => run_case::<B3>(case, &ctx.scratch),
+            HasherKind::Blake3 | HasherKind::TailLabel => run_case::<B3>(case, &ctx.scratch),
             HasherKind::Sha2 => run_case::<S2>(case, &ctx.scratch),
         }
     }
